@@ -5,3 +5,16 @@ add(
     "Exploration: every string over two small alphabets up to a length bound is enumerated exhaustively (quick: 5 letters to length 8; thorough: to length 11, and 4 letters to length 13) and grammar-directed Unicode trees and their single-edit mutants are generated; each is judged by an independent reference parser (verdict, tree, print round trip, exception type, public encode/decode surface). Not a proof: strings beyond the bounds (and beyond ~300 tokens) are unexplored.",
     "Trusts vlib/tngrammar.py (40-line reference parser written from the property's grammar), Hypothesis, CPython.",
 )
+
+add(
+    "C07",
+    "round-trip property over generated (type tree, value) pairs with an independently computed expectation; probe codec for exact consumption",
+    "Exploration: Hypothesis generates type trees of the AuxData grammar to depth 4 and values biased to integer bounds, multi-byte/NUL strings, special floats and attached/foreign UUIDs (quick 16k, thorough 400k cases) plus an exhaustive integer-boundary table in 14 container contexts; each is encoded, decoded (bytes, stream, with trailing junk, nested before a sentinel, behind a probe codec that measures consumption) and pushed through AuxData + IR save/load, and compared with an expectation computed by vlib/auxref (float32 rounding by integer arithmetic, node identity). Sampling, not proof.",
+    "Trusts vlib/auxref.py + vlib/auxgen.py, Hypothesis, CPython struct only for double<->bits conversion in the harness.",
+)
+add(
+    "C08",
+    "differential testing: byte-for-byte against an independent reference encoder, cross-decoding by the reference decoder and by the repository's Java codec",
+    "Exploration: for generated (type, value) pairs (quick 12k, thorough 240k) gtirb's bytes must equal those of vlib/auxref (written from the format description, integer arithmetic only), gtirb must decode reference bytes with sets/mappings in rotated order, the reference must decode gtirb's bytes completely, and for the Java-supported sub-grammar (half of the shards) the repository's Java codec must decode gtirb's bytes to the same rendering, consume all of them, re-encode them identically, and gtirb must decode Java's re-encoding of reference bytes. Sampling, not proof.",
+    "Trusts vlib/auxref.py, OpenJDK 17, /repo/java codec sources + a 2-method ByteString stub, java/AuxDriver.java.",
+)
